@@ -54,6 +54,10 @@ How the code is read (so that behaviour-preserving rewrites stay silent):
   * a local bound once to a plain copy of another local (``op = raw_op``, also what inlining a helper that returns
     ``(name, op, type_name)`` leaves behind) stands for what the other held *when the copy was taken*: the ':'
     normalisation and the default type must have been applied on every path to the copy;
+  * the binding parser may live in a helper of a new private module (the front-end expands ``helper(part)`` imported by name, see
+    normalize.collect_imported_helpers); what that leaves -- ``b = None`` / ``b = m.group('name', 'op', 'type')`` in the arms of one
+    test of the match, ``if b is None`` later -- is read as the test of the match itself (``_opt_fact``); BINDING is read in the module
+    that defines it; a rejection may test the sister tables one by one (``k not in T1 or k not in T2``);
   * build_converter (and the class it may instantiate) is read in the module its definition lives in (route.py may import it back);
   * build_converter is read as a *model* (``_ConvModel``): which function runs for a multi / single binding and how it spells the
     converter, the optional flag and the captured text -- two closures, or an instance of a private callable class whose
